@@ -331,7 +331,7 @@ impl Check for Registries {
                         }
                         _ => unreachable!(),
                     };
-                    st.hit(if got { "tx.ok" } else { "tx.refused" });
+                    st.tx(kind, got);
                     if got != exp {
                         return Err(violation("docs.dup_or_absent_refused", kind, i, format!("{s:?}: real {got} model {exp}")));
                     }
@@ -400,7 +400,7 @@ impl Check for Registries {
                         }
                         _ => unreachable!(),
                     };
-                    st.hit(if got { "tx.ok" } else { "tx.refused" });
+                    st.tx(kind, got);
                     if got != exp {
                         return Err(violation("binder.dup_or_absent_refused", kind, i, format!("{s:?}: real {got} model {exp}; bound {}", m.len())));
                     }
@@ -477,7 +477,7 @@ impl Check for Registries {
                         }
                         _ => unreachable!(),
                     };
-                    st.hit(if got { "tx.ok" } else { "tx.refused" });
+                    st.tx(kind, got);
                     if got != exp {
                         return Err(violation("cti.dup_or_absent_or_limit", kind, i, format!("{s:?}: real {got} model {exp}; topics {topics:?} issuers {}", m.len())));
                     }
@@ -561,7 +561,7 @@ impl Check for Registries {
                         }
                         _ => unreachable!(),
                     };
-                    st.hit(if got { "tx.ok" } else { "tx.refused" });
+                    st.tx(kind, got);
                     if got != exp {
                         let per_key = m.iter().filter(|t| matches!(s, Step::AllowKey { key, .. } | Step::RemoveKey { key, .. } if t.0 == *key)).count();
                         let check = if !got && kind == "allow_key" { "keys.limit_exact" } else { "keys.dup_or_absent_refused" };
